@@ -96,7 +96,13 @@ def run(ctx):
         names = [(x[1], insts.get(x[3][1], "")) for x in chain]
         dedup = any(("HashSet" in i or "BTreeSet" in i) and n.endswith("::collect") for n, i in names) or any(n.endswith("::dedup") for n, _ in names)
         via_btree = any("BTreeSet" in i for _, i in names)
-    dedups_after_sort = [c for c in mutators_of(ft, cur_key) if c.callee and c.callee.endswith("::dedup") and c.block not in outer.body]
+    # Vec::dedup only removes *adjacent* repeats: it de-duplicates only when a total sort dominates it
+    dedups_after_sort = [c for c in mutators_of(ft, cur_key) if c.callee and c.callee.endswith("::dedup") and c.block not in outer.body
+                         and any(cfg.dominates(s_.block, c.block) and s_.block != c.block for s_ in sorts)]
+    dedup = dedup and not any(n.endswith("::dedup") for n, _ in names) or any(("HashSet" in i or "BTreeSet" in i) and n.endswith("::collect") for n, i in names)
+    if dedups_after_sort:
+        # the order must be: sort, then dedup, and the sorted order is kept by dedup
+        pass
     run.inst("C08.K1", "dedup", src_param and (dedup or bool(dedups_after_sort)), "working vector = %s" % " <- ".join(n.split("::")[-1] + ("<HashSet>" if "HashSet" in i else "") for n, i in names), w)
     run.inst("C08.K1", "total-sort", bool(sorts) or via_btree, "sorted before the first pass by %s" % ([c.callee.split("::")[-1] for c in sorts] or ("BTreeSet order" if via_btree else "nothing")), w)
     late = [c for c in ft.calls() if c.block in outer.body and any(x == ("param", 1) for a in c.args for x in walk(a))]
